@@ -296,6 +296,7 @@ Definition check_first (c : cfg) (d : dgram) (f0 : frame) : bool :=
   (f_net f0 =? hc_net h) && node_eqb (f_from f0) (NHost (d_src d)) &&
   onode_eqb (f_to f0) (owner c (hc_net h) (host_next_hop h (d_dst d))) &&
   (p_ttl p =? d_ttl d) && (p_src p =? hc_ip h) && (p_dst p =? d_dst d) &&
+  (20 <=? p_totlen p) && (p_frag p <=? 8191) &&          (* guaranteed by Ipv4Header::from_bytes *)
   list_eqb (udp_data p) (d_data d).
 
 Definition check_dgram (c : cfg) (d : dgram) (fs : list frame) (xs : list rx) : bool :=
